@@ -123,6 +123,32 @@ def run(ctx: Ctx):
                 ev.append({"k": "fold", "line": L(s), "limit": 75, "out": list(ln.to_ical())})
                 meta.append({"file": os.path.basename(f), "line": L(s)[:60]})
     ctx.notes.append(f"fixture lines validated by TLC: {nfix}")
+    # lines that are short in CHARACTERS and long in OCTETS, through the list-level and component-level serialisers
+    # (a fast path that measures len(str) must not skip folding)
+    from icalendar import Event as _Ev
+    for ch in (0xE9, 0x4E2D, 0x1F600, 0x301):
+        for n in (20, 26, 37, 38, 40, 60, 66, 74):
+            body = chr(ch) * n
+            if ch == 0x301:
+                body = "e" + body
+            line = "SUMMARY:" + body
+            if len(line) >= 75:
+                continue
+            ctx.case(("short-chars", ch, n), True)
+            out = Contentlines([Contentline(line), Contentline("UID:1")]).to_ical()
+            tail = b"\r\nUID:1\r\n"
+            if not out.endswith(tail):
+                ctx.fail("P:C06:contentlines-roundtrip", {"line": L(line), "path": "Contentlines.to_ical"}, list(out[-20:]), None)
+                continue
+            ev.append({"k": "fold", "line": L(line), "limit": 75, "out": list(out[:-len(tail)])})
+            meta.append({"line": L(line)[:40], "path": "Contentlines.to_ical (all lines < 75 characters)"})
+            e = _Ev()
+            e.add("summary", body)
+            out = e.to_ical()
+            pre, post = b"BEGIN:VEVENT\r\n", b"\r\nEND:VEVENT\r\n"
+            if out.startswith(pre) and out.endswith(post):
+                ev.append({"k": "fold", "line": L(line), "limit": 75, "out": list(out[len(pre):-len(post)])})
+                meta.append({"line": L(line)[:40], "path": "Event.to_ical (all lines < 75 characters)"})
     ctx.sample({"trace_event": {k: (v if not isinstance(v, list) else v[:30]) for k, v in ev[-1].items()}})
     for idx, clause, known in ctx.validate_trace("Trace_Folding", ev, cfg_text(spec="Spec"), chunk=3000, timeout=3000):
         ctx.fail(clause, meta[idx], ev[idx].get("out", ev[idx].get("got")), None)
